@@ -87,6 +87,14 @@ func (p *FuncPlan) Master(c *Ctx) *SchedResult {
 			if reported[sig] {
 				continue
 			}
+			if unlisted, known := c.SplitKnown(f.Msgs); len(unlisted) == 0 && len(known) > 0 {
+				// a listed finding (scenario functions have no access to the list themselves)
+				reported[sig] = true
+				for _, k := range known {
+					res.Total.KnownHits[k]++
+				}
+				continue
+			}
 			ok, why := Confirm(s.Sc, base, f)
 			if !ok {
 				res.EngineErr = fmt.Sprintf("scenario %s: violation not reproducible: %s (choices %v)", s.Name, why, f.Prefix)
